@@ -298,6 +298,30 @@ func c10Fixed() []string {
 		operand := neg + "1" + strings.Repeat("+1", (bytesWanted+1)/2-1)
 		l = append(l, "var a = 0\nprint a and "+operand+" or 7\nvar b = 1\nprint b and "+operand+" or 7\n")
 	}
+	// long chains at one level: 2..40 operands of and / or / mixed, truthy and falsey
+	for n := 2; n <= 40; n++ {
+		for _, op := range []string{"and", "or"} {
+			var b1, b2 strings.Builder
+			b1.WriteString("var t = 1 var f = 0\nprint t")
+			b2.WriteString("var t = 1 var f = 0\nprint f")
+			for k := 1; k < n; k++ {
+				b1.WriteString(" " + op + " t")
+				b2.WriteString(" " + op + " f")
+			}
+			l = append(l, b1.String()+"\n"+b2.String()+"\ndef b { x = t "+strings.Repeat(op+" f ", n)+"}\n")
+		}
+	}
+	// or-chains whose middle operand is sized around the jump limit
+	for d := 65524; d <= 65532; d++ {
+		bytesWanted := d
+		neg := ""
+		if bytesWanted%2 == 0 {
+			neg = "-"
+			bytesWanted--
+		}
+		operand := neg + "1" + strings.Repeat("+1", (bytesWanted+1)/2-1)
+		l = append(l, "var z = 0\nprint z or 1 or "+operand+" or 0\nprint z or z or "+operand+" or 5 or z\n")
+	}
 	// constant indices across the 2-byte / 3-byte varint border (2287 / 2288)
 	{
 		var b strings.Builder
